@@ -30,9 +30,12 @@ def run(tier):
     cxx = os.path.join(REPO, "src/System/ProcessManager.cxx")
     cc = os.path.join(REPO, "src/System/ProcessManager-c.c")
     ref = os.path.join(VERIF, "controls", "C30_waitmacros.c")
-    dumps = cfgdump([cxx], os.path.join(OUT, "C30", "dump"), funcs=r"^tfel::system::ProcessManager", root=REPO)
+    dumps = cfgdump([cxx], os.path.join(OUT, "C30", "dump"), funcs=r"^tfel::system::", root=REPO)
     funcs = load_functions(dumps)
     rep.count("functions analysed", len(funcs))
+    cg = custom_guards(funcs)
+    if cg:
+        rep.extra["guard_classes"] = cg
 
     # ------------------------------------------- R1 UNCHECKED-RESULT(waitpid)
     for f in funcs:
@@ -393,6 +396,145 @@ def run(tier):
             rep.ok("%s expands to %s(status): %s" % (w, macro, byname[w]))
         else:
             rep.fail("WAIT-MACRO@%s" % w, "%s is '%s' but %s(status) is '%s'" % (w, byname[w], macro, byname.get(refn)))
+    # ------------------------------------------- R7 HANDLER-MUTEX: no self-deadlock of the handler
+    # a mutex taken by a function that runs as a signal handler is taken elsewhere only while signals are blocked in the calling
+    # thread (sigprocmask/pthread_sigmask(SIG_BLOCK, all) ... (SIG_SETMASK, old)), directly or through a guard class whose
+    # constructor blocks them before it locks: a SIGCHLD delivered to a thread that holds the mutex would otherwise block for ever on it
+
+    def handler_mutex_rule(funcs, HANDLERS):
+        def mutex_of(f_, sid):
+            for x in f_.walk(sid):
+                m = f_.stmts[x]
+                if m["k"] == "DeclRefExpr" and "mutex" in (m.get("declType") or "") and m.get("globalStorage"):
+                    return m.get("name")
+            return None
+
+        def ctor_blocks(cls):
+            for g in funcs:
+                if g.qname == "%s::%s" % (cls, cls.rsplit("::", 1)[-1]) and g.parent is None:
+                    calls = sorted((x, m) for x, m in g.stmts.items() if m["k"] in ("CallExpr", "CXXMemberCallExpr"))
+                    blk = [x for x, m in calls if (m.get("callee") or "") in ("sigprocmask", "pthread_sigmask")]
+                    lck = [(x, mutex_of(g, m.get("obj") or x)) for x, m in calls if (m.get("callee") or "").endswith("mutex::lock")]
+                    if blk and lck and min(blk) < lck[0][0]:
+                        return lck[0][1]
+            return None
+
+        def lock_sites(f_):
+            out = []
+            for sid, n in f_.stmts.items():
+                if n["k"] != "DeclStmt":
+                    continue
+                for d in n["decls"]:
+                    ty = d.get("type") or ""
+                    if re.search(r"(lock_guard|unique_lock|scoped_lock)<", ty) and "init" in d:
+                        m = mutex_of(f_, d["init"])
+                        if m:
+                            out.append((sid, m, False))
+                    elif "init" in d:
+                        ce = f_.stmts.get(f_.strip(d["init"]))
+                        if ce is not None and ce["k"] == "CXXConstructExpr":
+                            m = ctor_blocks(ce.get("ctorClass") or "")
+                            if m:
+                                out.append((sid, m, True))
+            return out
+        hm = set()
+        for f in funcs:
+            if f.qname.split("(")[0] in HANDLERS or (f.parent is not None and any(f.qname.startswith(h) for h in HANDLERS)):
+                hm |= set(m for _s, m, _b in lock_sites(f))
+        if not hm:
+            raise AnalysisBroken("the signal handlers of ProcessManager take no mutex any more: R7 has no instance")
+        for f in funcs:
+            if f.parent is not None or f.qname.split("(")[0] in HANDLERS or f.entry is None:
+                continue
+            ls = [(sid, m, b) for sid, m, b in lock_sites(f) if m in hm]
+            if not ls:
+                continue
+            site = {sid: (m, b) for sid, m, b in ls}
+            bad7 = []
+
+            def el7(st, b, i, e):
+                if "s" not in e:
+                    return (st,)
+                s_ = e["s"]
+                n_ = f.stmts[s_]
+                if n_["k"] == "CallExpr" and (n_.get("callee") or "") in ("sigprocmask", "pthread_sigmask") and n_.get("args"):
+                    how = f.stmts[f.strip(n_["args"][0])]
+                    v = how.get("value")
+                    if v == 0:          # SIG_BLOCK
+                        return (True,)
+                    if v in (1, 2):     # SIG_UNBLOCK, SIG_SETMASK
+                        return (False,)
+                if s_ in site and not site[s_][1] and not st:
+                    bad7.append(s_)
+                return (st,)
+            forward(f, (False,), el7)
+            for sid, m, b in ls:
+                rep.count("acquisitions of a handler mutex outside the handlers")
+            if bad7:
+                rep.fail("HANDLER-MUTEX@%s#%s" % (f.qname, site[bad7[0]][0]), "%s: %s locks %s, which the SIGCHLD handler also locks, without blocking signals first: "
+                         "a SIGCHLD (of any child of any manager) delivered to this thread while it holds the mutex runs the handler, which blocks for "
+                         "ever on the mutex its own thread holds - execute() never reports the status" % (rel(f.short_loc(bad7[0])), f.qname, site[bad7[0]][0]))
+            else:
+                rep.ok("%s takes %s only while signals are blocked" % (f.qname, ", ".join(sorted(set(m for _s, m, _b in ls)))))
+    handler_mutex_rule(funcs, (PM + "::sigChildHandler", PM + "::terminateHandler"))
+    # the dispatcher installed by sigaction for every signal: SignalManager::treatAction (it locks callbacksAccess in a closure)
+    dsm = cfgdump([os.path.join(REPO, "src/System/SignalManager.cxx")], os.path.join(OUT, "C30", "dumpsm"), funcs=r"^tfel::system::", root=REPO)
+    handler_mutex_rule(load_functions(dsm), ("tfel::system::SignalManager::treatAction",))
+    # ------------------------------------------- R8 FD-CLOSED-ONCE: who closes the redirection descriptors when exec fails
+    # premise: every caller of the createProcess overload that receives the descriptors (int* in / int* out) calls it in a try block
+    # whose catch-all handler closes them; rule: that overload never closes them (closeProcessFiles, or close on in/out/ins/outs) on a
+    # path that ends in a throw - the number would be closed twice, and between the two closes another thread may have been given it
+    low = [f for f in funcs if f.qname == PM + "::createProcess" and f.parent is None and sum(1 for p_ in f.params if p_["type"].replace("const ", "").strip() in ("int *", "int *const")) >= 2]
+    if len(low) != 1:
+        raise AnalysisBroken("the createProcess overload taking the redirection descriptors was not identified (%d)" % len(low))
+    g = low[0]
+    ncs = 0
+    for f in funcs:
+        if f is g or f.parent is not None:
+            continue
+        pm_ = f.parent_map()
+        for s_, n_ in f.stmts.items():
+            if n_["k"] == "CXXMemberCallExpr" and (n_.get("callee") or "") == PM + "::createProcess" and len(n_.get("args") or []) == len(g.params):
+                ncs += 1
+                q, ok_ = s_, False
+                while q in pm_:
+                    q = pm_[q]
+                    if f.stmts[q]["k"] == "CXXTryStmt":
+                        for h in f.kids(q)[1:]:
+                            if any(f.stmts[x]["k"] == "CallExpr" and (f.stmts[x].get("callee") or "") == "close" for x in f.walk(h)):
+                                ok_ = True
+                        break
+                if ok_:
+                    rep.ok("%s: the descriptors handed to createProcess are closed by the caller's handler when it throws" % rel(f.short_loc(s_)), sample=False)
+                else:
+                    rep.fail("FD-OWNER@%s" % f.qname, "%s: %s hands descriptors to createProcess outside a try block whose handler closes them: they leak "
+                             "when the command cannot be executed" % (rel(f.short_loc(s_)), f.qname))
+    rep.count("callers handing descriptors to createProcess", ncs)
+    bad8 = []
+
+    def el8(st, b, i, e):
+        if "s" not in e:
+            return (st,)
+        n_ = g.stmts[e["s"]]
+        if n_["k"] == "CXXMemberCallExpr" and (n_.get("callee") or "").endswith("::closeProcessFiles"):
+            return (e["s"],)
+        if n_["k"] == "CallExpr" and (n_.get("callee") or "") == "close" and n_.get("args"):
+            t = g.text(g.strip(n_["args"][0]))
+            if re.search(r"\b(in|out|ins|outs)\b", t):
+                return (e["s"],)
+        if n_["k"] == "CXXThrowExpr" and st is not None:
+            bad8.append((e["s"], st))
+        return (st,)
+    forward(g, (None,), el8)
+    if bad8:
+        t_, c_ = bad8[0]
+        rep.fail("FD-CLOSED-ONCE@%s" % g.qname, "%s: createProcess closes the redirection descriptors (%s) and then throws (%s): its callers close them "
+                 "again in their handlers; between the two closes another thread may have been given the same number, and loses its file"
+                 % (rel(g.short_loc(c_)), g.text(c_)[:60], rel(g.short_loc(t_))))
+    else:
+        rep.ok("createProcess does not close the caller's descriptors on the paths where it throws")
+    rep.floor("callers handing descriptors to createProcess", 2)
+    rep.floor("acquisitions of a handler mutex outside the handlers", 3)
     rep.floor("waitpid call sites", 3)
     rep.floor("uses of a waitpid status", 2)
     rep.floor("accesses to ProcessManager::processes", 8)
@@ -402,7 +544,7 @@ def run(tier):
     rep.assumptions += [
         "the per-process fields isRunning/exitStatus/exitValue are written by the unique reaper (the caller whose waitpid "
         "returned the pid): with R1 a stale read of isRunning only leads to a tolerated ECHILD, so they are not in the lock set",
-        "async-signal-safety of taking a std::mutex inside the SIGCHLD handler is not decided",
+        "async-signal-safety of what the SIGCHLD handler calls (mutex, allocation, exceptions) is not decided beyond R7 (no self-deadlock on its mutex)",
         "glibc's <sys/wait.h> macros are the reference for the wrappers"]
     return rep
 
